@@ -12,6 +12,11 @@
     models: Choquet (C03 `choquetParse_*`), ELECTRE III weights / thresholds / distillation guard,
     satisfaction-level series (C14), split condition and ordering names (C15), fatigue function and
     bounding scaling (C17), concealment scaling and mixing ratio (models of C18), bias names, weights.
+  * END TO END (last sections): every request-level violation, an unknown method / bias, unparsed method
+    parameters are rejected by the whole `MakeDecision` model (`decideWith`) for every stream, and answered 400
+    by `handle`; `decideWith` returns an error or a full ranking, nothing else; invalid props of a bias are
+    rejected when the bias fires — and only then (`unfired_bias_props_are_never_validated`, the registered
+    finding `lazy-bias-props`).
   Not expressible in Lean (partial): that the OS process survives and keeps answering — decided
   against the real server binary (harness/main/c20.go).
 -/
@@ -22,6 +27,11 @@ import Rdm.Props.C03
 import Rdm.Props.C14
 import Rdm.Props.C15
 import Rdm.Props.C17
+import Rdm.Props.C01
+import Rdm.Props.C05
+import Rdm.Lemmas.E2EService
+import Rdm.Lemmas.E2EServiceRequest
+import Rdm.Lemmas.E2EServiceExamples
 namespace Rdm.Props.C20
 open Rdm
 
@@ -491,5 +501,528 @@ example : (⟨1/2, 3, 2⟩ : SplitCond Rat).validate = .error "max-lower-than-mi
 example : (⟨0, false⟩ : Bounding Rat).validate = .error "allowedValuesRangeScaling-cannot-be-0" := rfl
 example : ∃ e, chooseBiases (α := Rat) (P := Unit) ["fatigue"] [⟨"nope", false, none, ()⟩] = .error e :=
   unknown_bias_rejected _ _ ⟨"nope", false, none, ()⟩ (by simp) rfl (by decide)
+
+/-! ## END TO END: rejection on whole requests (`decideWith` / `Rdm.decide`)
+
+The theorems above are about `validateRequest`, `ChooseBiases` and the single validation functions.  The ones
+below lift them to the model of the whole `MakeDecision` (`decideWith` / `Rdm.decide` of Model/Decide.lean) and
+through it to the handler's status logic (`handle`): for every request, every method, every bias list, every
+stream function, no bounds.  Helper lemmas: `Rdm/Lemmas/E2EService.lean`, `Rdm/Lemmas/E2EServiceRequest.lean`.
+
+**Totality of the model.**  `decideWith` is a total Lean function into `Except String (Response α)`: there are
+no partial functions in the model (the only `partial def` of the project is the S-expression printer of the
+driver), so for every request it returns either `.error _` or `.ok resp` — there is no third outcome
+(`decideWith_error_or_ranking`).  Recursion that is not structural:
+  * `choquetComponents` (Model/Utility.lean) — well-founded recursion on the length of the value list
+    (`termination_by`), checked by Lean;
+  * fuel: `distillate` / `rank` of ELECTRE III (`rankFuel n = n² + n + 2`; exhaustion would be the error
+    "fuel-exhausted") — the fuel suffices for every in-domain distillation function:
+    `Props.C05.rank_terminates`, re-exported below as `electre_fuel_suffices`;
+  * fuel: `coefSeries` of the satisfaction-level sources (`coefFuel`; exhaustion would be
+    "levels-fuel-exhausted") — suffices for every validated parameter set: `Props.C14.fuel_suffices`,
+    re-exported below as `levels_fuel_suffices`;
+  * fuel: `notUsedNameLoop` (fresh criterion names of concealment / mixing / anchoring) — more candidates than
+    existing ids are tried, so a fresh one is found: `notUsedName_fresh` (Lemmas/BiasBNames.lean). -/
+
+section EndToEnd
+
+/-! ### N2(a) what validation rejects is never answered with a ranking -/
+
+/-- a request `prepare` rejects is rejected by `decideWith` with the same message for every exponential, every
+    tie order and every stream function: the rejection happens before the first random number -/
+theorem never_ranked_of_prepare_error {req : Request α} (h : ∃ e, prepare req = .error e) :
+    ∃ e, ∀ (exp : α → α) (o : List (WCrit α) → List (WCrit α)) (g : Int → Draws α),
+      decideWith exp o req g = .error e := by
+  obtain ⟨e, he⟩ := h
+  exact ⟨e, fun _ _ _ => e2es_decideWith_error_of_prepare he⟩
+
+/-- **the requests that get past the part of `MakeDecision` before the first random number, exactly**: those
+    that pass `validateRequest` (characterised by `validateRequest_ok_iff`), name a registered method, whose
+    method parameters parsed, and whose enabled biases are all registered.  Nothing else is rejected there,
+    nothing else is accepted. -/
+theorem request_reaches_the_biases_iff (req : Request α) :
+    (∃ r, prepare req = .ok r) ↔
+      validateRequest req.method req.crit req.known req.chosen = .ok () ∧
+      methodNames.contains req.method = true ∧ (∃ mp, req.mp = some mp) ∧
+      ∀ b ∈ req.biases, b.disabled = false → availableBiases.contains b.name = true :=
+  e2es_prepare_isOk_iff req
+
+/-- **N2(a)**: if `validateRequest` fails, or the method is not registered, or the method parameters did not
+    parse, or an enabled bias is not registered, then `decideWith` is `.error _` — one and the same message for
+    every exponential, tie order and stream function: such a request is never answered with a ranking -/
+theorem decideWith_rejects_what_validation_rejects (req : Request α)
+    (h : (∃ e, validateRequest req.method req.crit req.known req.chosen = .error e) ∨
+         methodNames.contains req.method = false ∨ req.mp = none ∨
+         (∃ b ∈ req.biases, b.disabled = false ∧ availableBiases.contains b.name = false)) :
+    ∃ e, ∀ (exp : α → α) (o : List (WCrit α) → List (WCrit α)) (g : Int → Draws α),
+      decideWith exp o req g = .error e := by
+  apply never_ranked_of_prepare_error
+  apply valH_error_of_not_ok
+  intro r hr
+  obtain ⟨hv, hm, ⟨mp, hmp⟩, hb⟩ := (e2es_prepare_isOk_iff req).mp ⟨r, hr⟩
+  rcases h with ⟨e, he⟩ | h | h | ⟨b, hbm, hd, hunk⟩
+  · rw [hv] at he; cases he
+  · rw [hm] at h; cases h
+  · rw [hmp] at h; cases h
+  · rw [hb b hbm hd] at hunk; cases hunk
+
+/-- … and the converse: a request `decideWith` rejects on some streams although none of the four holds was
+    rejected later — by a bias that fired or by the method (`decideWith` got past `prepare`) -/
+theorem rejected_otherwise_means_rejected_later {exp : α → α} {o : List (WCrit α) → List (WCrit α)}
+    {req : Request α} {g : Int → Draws α} {e : String} (h : decideWith exp o req g = .error e)
+    (hv : validateRequest req.method req.crit req.known req.chosen = .ok ())
+    (hm : methodNames.contains req.method = true) (hmp : ∃ mp, req.mp = some mp)
+    (hb : ∀ b ∈ req.biases, b.disabled = false → availableBiases.contains b.name = true) :
+    ∃ params chosen, prepare req = .ok (params, chosen) ∧
+      (processLoop (applyBias exp g) params chosen params (g req.biasSeed) = .error e ∨
+       ∃ fin outs, processLoop (applyBias exp g) params chosen params (g req.biasSeed) = .ok (fin, outs) ∧
+         evaluateWith o g fin = .error e) := by
+  obtain ⟨⟨params, chosen⟩, hprep⟩ := (e2es_prepare_isOk_iff req).mpr ⟨hv, hm, hmp, hb⟩
+  refine ⟨params, chosen, hprep, ?_⟩
+  unfold decideWith at h
+  rw [e2es_pipeline_of_prepare hprep] at h
+  cases hl : processLoop (applyBias exp g) params chosen params (g req.biasSeed) with
+  | error e' =>
+    rw [hl] at h
+    cases h
+    exact Or.inl rfl
+  | ok r =>
+    obtain ⟨fin, outs⟩ := r
+    rw [hl] at h
+    refine Or.inr ⟨fin, outs, rfl, ?_⟩
+    cases he : evaluateWith o g fin with
+    | error e' =>
+      simp only [bind, Except.bind, he] at h
+      cases h
+      rfl
+    | ok res =>
+      simp only [bind, Except.bind, he, pure, Except.pure] at h
+      cases h
+
+/-- the handler answers such a request with status 400 and no ranking, whatever the seed table -/
+theorem rejected_request_is_answered_400 (req : Request α)
+    (h : (∃ e, validateRequest req.method req.crit req.known req.chosen = .error e) ∨
+         methodNames.contains req.method = false ∨ req.mp = none ∨
+         (∃ b ∈ req.biases, b.disabled = false ∧ availableBiases.contains b.name = false))
+    (exp : α → α) (seeds : Seeds α) (bound : Bool) :
+    handle bound (Rdm.decide exp req seeds) = (400, none) := by
+  obtain ⟨e, he⟩ := decideWith_rejects_what_validation_rejects req h
+  unfold Rdm.decide
+  rw [he]
+  cases bound <;> rfl
+
+/-! #### each documented request-level violation, lifted to `decideWith` -/
+
+/-- a blank method name -/
+theorem blank_method_never_ranked (req : Request α) (hb : isBlank req.method = true) :
+    ∃ e, ∀ (exp : α → α) (o : List (WCrit α) → List (WCrit α)) (g : Int → Draws α),
+      decideWith exp o req g = .error e :=
+  decideWith_rejects_what_validation_rejects req
+    (Or.inl (blank_method_rejected_any req.method hb req.crit req.known req.chosen))
+
+/-- a method name that is not one of the seven registered ones -/
+theorem unknown_method_never_ranked (req : Request α) (h : req.method ∉ methodNames) :
+    ∃ e, ∀ (exp : α → α) (o : List (WCrit α) → List (WCrit α)) (g : Int → Draws α),
+      decideWith exp o req g = .error e :=
+  decideWith_rejects_what_validation_rejects req (Or.inr (Or.inl (by simpa using h)))
+
+/-- method parameters that `ParseParams` refused (missing weights, Choquet capacities outside [0,1] or
+    non-gain criteria, non-positive ELECTRE weights, non-increasing thresholds, an unaccepted distillation
+    function, out-of-range coefficients, unknown level function … — see the per-method theorems above) -/
+theorem unparsed_parameters_never_ranked (req : Request α) (h : req.mp = none) :
+    ∃ e, ∀ (exp : α → α) (o : List (WCrit α) → List (WCrit α)) (g : Int → Draws α),
+      decideWith exp o req g = .error e :=
+  decideWith_rejects_what_validation_rejects req (Or.inr (Or.inr (Or.inl h)))
+
+/-- duplicate criterion ids -/
+theorem duplicate_criterion_never_ranked (req : Request α) (i j : Nat) (a b : Crit α) (hij : i < j)
+    (hi : req.crit[i]? = some a) (hj : req.crit[j]? = some b) (hid : a.id = b.id) :
+    ∃ e, ∀ (exp : α → α) (o : List (WCrit α) → List (WCrit α)) (g : Int → Draws α),
+      decideWith exp o req g = .error e :=
+  decideWith_rejects_what_validation_rejects req
+    (Or.inl (duplicate_criterion_rejected_request req.method req.crit req.known req.chosen i j a b hij hi hj hid))
+
+/-- an empty or inverted value range -/
+theorem bad_range_never_ranked (req : Request α) (c : Crit α) (hc : c ∈ req.crit) (lo hi : α)
+    (hr : c.range = some (lo, hi)) (h : hi ≤ lo) :
+    ∃ e, ∀ (exp : α → α) (o : List (WCrit α) → List (WCrit α)) (g : Int → Draws α),
+      decideWith exp o req g = .error e :=
+  decideWith_rejects_what_validation_rejects req
+    (Or.inl (bad_range_rejected_request req.method req.crit req.known req.chosen c hc lo hi hr h))
+
+/-- a known alternative without a value for some criterion (whatever the other fields) -/
+theorem missing_value_never_ranked (req : Request α) (a : Alt α) (ha : a ∈ req.known) (c : Crit α)
+    (hc : c ∈ req.crit) (hmiss : a.vals.has c.id = false) :
+    ∃ e, ∀ (exp : α → α) (o : List (WCrit α) → List (WCrit α)) (g : Int → Draws α),
+      decideWith exp o req g = .error e := by
+  apply decideWith_rejects_what_validation_rejects req
+  refine Or.inl ((validateRequest_rejected_iff _ _ _ _).mpr ?_)
+  rintro ⟨_, _, _, h4, _⟩
+  rw [h4 a ha c hc] at hmiss
+  cases hmiss
+
+/-- an alternative to choose from that is not among the known ones -/
+theorem unknown_alternative_never_ranked (req : Request α) (id : String) (hid : id ∈ req.chosen)
+    (hunk : ∀ a ∈ req.known, a.id ≠ id) :
+    ∃ e, ∀ (exp : α → α) (o : List (WCrit α) → List (WCrit α)) (g : Int → Draws α),
+      decideWith exp o req g = .error e :=
+  decideWith_rejects_what_validation_rejects req
+    (Or.inl (unknown_alternative_rejected req.method req.crit req.known req.chosen id hid hunk))
+
+/-- an enabled bias whose name is not registered -/
+theorem unknown_bias_never_ranked (req : Request α) (b : BiasReq α (BProps α)) (hb : b ∈ req.biases)
+    (hen : b.disabled = false) (hunk : b.name ∉ availableBiases) :
+    ∃ e, ∀ (exp : α → α) (o : List (WCrit α) → List (WCrit α)) (g : Int → Draws α),
+      decideWith exp o req g = .error e :=
+  decideWith_rejects_what_validation_rejects req
+    (Or.inr (Or.inr (Or.inr ⟨b, hb, hen, by simpa using hunk⟩)))
+
+/-! ### N2(b) an error or a ranking — no third outcome -/
+
+/-- **N2(b)**: `decideWith` returns either `.error _` or a response whose `result` ranks exactly the
+    alternatives that had to be considered (`choseToMake`, plus the heuristic's current choice when it is not
+    among them — `e2eExpected`), one entry each; there is no third outcome.  Domain of the ranking part (as for
+    C01): `choseToMake` lists pairwise different alternatives. -/
+theorem decideWith_error_or_ranking (hirr : ∀ x : α, ¬ x < x) (exp : α → α)
+    (o : List (WCrit α) → List (WCrit α)) (req : Request α) (g : Int → Draws α) (hnd : req.chosen.Nodup) :
+    (∃ e, decideWith exp o req g = .error e) ∨
+    (∃ resp mp, decideWith exp o req g = .ok resp ∧ req.mp = some mp ∧
+      resp.result.length = (e2eExpected req.chosen (e2eCur mp)).length ∧
+      (resp.result.map (·.id)).Perm (e2eExpected req.chosen (e2eCur mp)) ∧
+      (resp.result.map (·.id)).Nodup) := by
+  cases h : decideWith exp o req g with
+  | error e => exact Or.inl ⟨e, rfl⟩
+  | ok resp =>
+    obtain ⟨mp, hmp, hperm, hnodup, _⟩ :=
+      Rdm.Props.C01.decideWith_wellformed_spelled_out hirr exp o req g resp h hnd
+    refine Or.inr ⟨resp, mp, rfl, hmp, ?_, hperm, hnodup⟩
+    have := hperm.length_eq
+    simpa using this
+
+/-- … without the domain hypothesis only the dichotomy remains (totality of the model) -/
+theorem decideWith_total (exp : α → α) (o : List (WCrit α) → List (WCrit α)) (req : Request α)
+    (g : Int → Draws α) :
+    (∃ e, decideWith exp o req g = .error e) ∨ (∃ resp, decideWith exp o req g = .ok resp) := by
+  cases decideWith exp o req g with
+  | error e => exact Or.inl ⟨e, rfl⟩
+  | ok resp => exact Or.inr ⟨resp, rfl⟩
+
+/-- the service's answer to a bound request, over the rationals: 400 without a ranking, or 200 with a ranking
+    of exactly the alternatives to be considered -/
+theorem service_answers_with_400_or_a_full_ranking (exp : Rat → Rat) (req : Request Rat) (seeds : Seeds Rat)
+    (hnd : req.chosen.Nodup) :
+    handle true (Rdm.decide exp req seeds) = (400, none) ∨
+    ∃ resp mp, handle true (Rdm.decide exp req seeds) = (200, some resp) ∧ req.mp = some mp ∧
+      (resp.result.map (·.id)).Perm (e2eExpected req.chosen (e2eCur mp)) := by
+  rcases decideWith_error_or_ranking (fun _ => Rat.lt_irrefl) exp sortCriteriaDesc req (genOf seeds) hnd with
+    ⟨e, he⟩ | ⟨resp, mp, h, hmp, _, hperm, _⟩
+  · left; unfold Rdm.decide; rw [he]; rfl
+  · right; exact ⟨resp, mp, by unfold Rdm.decide; rw [h]; rfl, hmp, hperm⟩
+
+/-- re-export of `Props.C05.rank_terminates`: the fuel of the ELECTRE III distillation suffices -/
+theorem electre_fuel_suffices (m : Matrix Rat) (s : LinFun Rat) (cmp : Int → Int → Bool)
+    (hs : Spec.C05.distInDomain s = true) (hsz : m.size ≠ 0)
+    (hlen : m.data.length = m.size * m.size) (hrng : ∀ x ∈ m.data, 0 ≤ x ∧ x ≤ 1) :
+    ∃ ps, rank m s cmp = .ok ps :=
+  Rdm.Props.C05.rank_terminates m s cmp hs hsz hlen hrng
+
+/-- re-export of `Props.C14.fuel_suffices`: the fuel of the satisfaction-level series suffices -/
+theorem levels_fuel_suffices (k : CoefKind) (c mx mn : Rat) (hv : coefValid k c mx mn = true) :
+    ∃ rs, coefSeries k c mx mn (coefFuel k c mx mn) (coefInitial k mx mn) = Except.ok rs ∧
+      rs.length ≤ coefFuel k c mx mn :=
+  Rdm.Props.C14.fuel_suffices k c mx mn hv
+
+/-! ### N2(c) the props of a bias are validated when — and only when — it fires -/
+
+/-- the documented constraints on the props of a bias, violated (each constructor is one `panic` of the bias's
+    own validation; `undecodable`: `mapstructure` / the typed decoder refused the props) -/
+inductive InvalidBiasProps : String → BProps Rat → Prop
+  | omission_ratio (c : SplitCond Rat) (ord : String) (s : Int) (h : c.ratio < 0 ∨ 1 < c.ratio) :
+      InvalidBiasProps Facts.biasOmission (.split c ord s)
+  | omission_max_below_min (c : SplitCond Rat) (ord : String) (s : Int) (h : c.max < c.min) :
+      InvalidBiasProps Facts.biasOmission (.split c ord s)
+  | omission_unknown_ordering (c : SplitCond Rat) (ord : String) (s : Int) (hne : ord.isEmpty = false)
+      (hunk : availableOrderings.contains ord = false) : InvalidBiasProps Facts.biasOmission (.split c ord s)
+  | reversal_ratio (c : SplitCond Rat) (ord : String) (s : Int) (h : c.ratio < 0 ∨ 1 < c.ratio) :
+      InvalidBiasProps Facts.biasReversal (.split c ord s)
+  | reversal_max_below_min (c : SplitCond Rat) (ord : String) (s : Int) (h : c.max < c.min) :
+      InvalidBiasProps Facts.biasReversal (.split c ord s)
+  | reversal_unknown_ordering (c : SplitCond Rat) (ord : String) (s : Int) (hne : ord.isEmpty = false)
+      (hunk : availableOrderings.contains ord = false) : InvalidBiasProps Facts.biasReversal (.split c ord s)
+  | fatigue_unknown_function (n : String) (b : Bounding Rat) (s : Int) :
+      InvalidBiasProps Facts.biasFatigue (.fatigue (.unknown n) b s)
+  | fatigue_bounding_scaling_zero (fn : FatigueFn Rat) (b : Bounding Rat) (s : Int) (h : b.scaling = 0) :
+      InvalidBiasProps Facts.biasFatigue (.fatigue fn b s)
+  | concealment_scaling_zero (p : Props Rat)
+      (h : p.num "newCriterionScaling" (Num.ofConst Facts.defaultConcealmentScaling) = 0) :
+      InvalidBiasProps Facts.biasConcealment (.flat p)
+  | concealment_bounding_scaling_zero (p : Props Rat)
+      (h : p.num "allowedValuesRangeScaling" (Num.ofConst Facts.defaultBoundingScaling) = 0) :
+      InvalidBiasProps Facts.biasConcealment (.flat p)
+  | undecodable (name : String) : InvalidBiasProps name .bad
+
+/-- invalid props make `Bias.Apply` fail on every state, whatever the streams -/
+theorem invalid_props_fail_on_every_state {name : String} {p : BProps Rat} (h : InvalidBiasProps name p)
+    (exp : Rat → Rat) (g : Int → Draws Rat) (orig cur : DMP Rat) :
+    ∃ e, applyBias exp g name p orig cur = .error e := by
+  cases h with
+  | omission_ratio c ord s h =>
+    rw [decideApplyBias_omission_eq]
+    exact valH_bind_error_of _ _ (omission_ratio_out_of_range_rejected _ c ord cur _ h)
+  | omission_max_below_min c ord s h =>
+    rw [decideApplyBias_omission_eq]
+    exact valH_bind_error_of _ _ (omission_max_below_min_rejected _ c ord cur _ h)
+  | omission_unknown_ordering c ord s hne hunk =>
+    rw [decideApplyBias_omission_eq]
+    apply valH_bind_error_of
+    unfold omissionApply
+    cases c.validate with
+    | error e => exact ⟨e, rfl⟩
+    | ok u =>
+      exact valH_bind_error_of (orderCriteria choquetEpsOf ord cur (g s)) _
+        (unknown_ordering_rejected _ ord cur _ hne hunk)
+  | reversal_ratio c ord s h =>
+    rw [decideApplyBias_reversal_eq]
+    exact valH_bind_error_of _ _ (reversal_ratio_out_of_range_rejected _ c ord cur _ h)
+  | reversal_max_below_min c ord s h =>
+    rw [decideApplyBias_reversal_eq]
+    exact valH_bind_error_of _ _ (reversal_max_below_min_rejected _ c ord cur _ h)
+  | reversal_unknown_ordering c ord s hne hunk =>
+    rw [decideApplyBias_reversal_eq]
+    apply valH_bind_error_of
+    unfold reversalApply
+    cases c.validate with
+    | error e => exact ⟨e, rfl⟩
+    | ok u =>
+      exact valH_bind_error_of (orderCriteria choquetEpsOf ord cur (g s)) _
+        (unknown_ordering_rejected _ ord cur _ hne hunk)
+  | fatigue_unknown_function n b s =>
+    rw [decideApplyBias_fatigue_eq]
+    exact valH_bind_error_of _ _ (fatigue_unknown_function_rejected exp n b cur _)
+  | fatigue_bounding_scaling_zero fn b s h =>
+    rw [decideApplyBias_fatigue_eq]
+    exact valH_bind_error_of _ _ (fatigue_bounding_scaling_zero_rejected exp fn b cur _ h)
+  | concealment_scaling_zero p h =>
+    unfold applyBias
+    rw [if_neg (by decide), if_neg (by decide), if_neg (by decide), if_pos (by decide)]
+    exact valH_bind_error_of _ _ (concealment_scaling_zero_rejected _ orig cur p _ _ h)
+  | concealment_bounding_scaling_zero p h =>
+    unfold applyBias
+    rw [if_neg (by decide), if_neg (by decide), if_neg (by decide), if_pos (by decide)]
+    exact valH_bind_error_of _ _ (concealment_bounding_scaling_zero_rejected _ orig cur p _ _ h)
+  | undecodable name =>
+    unfold applyBias
+    split_ifs <;> exact ⟨_, rfl⟩
+
+/-- **the core of N2(c)**: an enabled entry whose activation draw is below its probability and whose `Apply`
+    fails on every state makes `decideWith` fail — whatever the biases before it did (if one of them failed, or
+    the request was rejected earlier, the decision failed too; otherwise this entry fires and fails) -/
+theorem firing_bias_that_always_fails_rejects_request {exp : α → α} {o : List (WCrit α) → List (WCrit α)}
+    {req : Request α} {g : Int → Draws α} {i : Nat} {b : BiasReq α (BProps α)} {u : α}
+    (hb : (e2esEnabled req)[i]? = some b) (hu : (g req.biasSeed)[i]? = some u) (hlt : u < e2esProb b)
+    (hbad : ∀ orig cur, ∃ e, applyBias exp g b.name b.props orig cur = .error e) :
+    ∃ e, decideWith exp o req g = .error e :=
+  e2es_decide_error_of_fired_error hb hu hlt hbad
+
+/-- **N2(c)**: invalid props of a bias that FIRES are rejected.  If the `i`-th enabled entry of the request has
+    invalid props (omission / reversal: split ratio outside [0,1], max < min, unknown ordering; fatigue: unknown
+    function, bounding scale 0; concealment: new-criterion scaling 0, bounding scale 0; undecodable props) and
+    its activation draw is below its probability, then the request is not answered with a ranking.  (No
+    hypothesis on the earlier biases is needed: when one of them fails the request fails as well.) -/
+theorem firing_bias_with_invalid_props_is_rejected {exp : Rat → Rat} {o : List (WCrit Rat) → List (WCrit Rat)}
+    {req : Request Rat} {g : Int → Draws Rat} {i : Nat} {b : BiasReq Rat (BProps Rat)} {u : Rat}
+    (hb : (e2esEnabled req)[i]? = some b) (hu : (g req.biasSeed)[i]? = some u) (hlt : u < e2esProb b)
+    (hinv : InvalidBiasProps b.name b.props) :
+    ∃ e, decideWith exp o req g = .error e :=
+  firing_bias_that_always_fails_rejects_request hb hu hlt
+    (fun orig cur => invalid_props_fail_on_every_state hinv exp g orig cur)
+
+/-- … and the handler answers 400 without a ranking -/
+theorem firing_bias_with_invalid_props_is_answered_400 {exp : Rat → Rat} {req : Request Rat} {seeds : Seeds Rat}
+    {i : Nat} {b : BiasReq Rat (BProps Rat)} {u : Rat}
+    (hb : (e2esEnabled req)[i]? = some b) (hu : (genOf seeds req.biasSeed)[i]? = some u)
+    (hlt : u < e2esProb b) (hinv : InvalidBiasProps b.name b.props) (bound : Bool) :
+    handle bound (Rdm.decide exp req seeds) = (400, none) := by
+  obtain ⟨e, he⟩ := firing_bias_with_invalid_props_is_rejected (o := sortCriteriaDesc) hb hu hlt hinv
+  unfold Rdm.decide
+  rw [he]
+  cases bound <;> rfl
+
+/-- **the state-dependent form** (needed for criteria mixing, whose validation runs only from two current
+    criteria on): the request cut after its first `i` enabled entries gets through its biases and reaches the
+    state `s` ("the biases before it succeeded"); entry `i` fires; its `Apply` fails on `s` — then `decideWith`
+    fails -/
+theorem firing_bias_failing_on_its_state_rejects_request {exp : α → α} {o : List (WCrit α) → List (WCrit α)}
+    {req : Request α} {g : Int → Draws α} {i : Nat} {b : BiasReq α (BProps α)} {u : α} {s : DMP α}
+    {outs : List (BiasOut α (Report α))}
+    (hpre : pipeline exp { req with biases := (e2esEnabled req).take i } g = .ok (s, outs))
+    (hb : (e2esEnabled req)[i]? = some b) (hu : (g req.biasSeed)[i]? = some u) (hlt : u < e2esProb b)
+    (hbad : ∀ orig, ∃ e, applyBias exp g b.name b.props orig s = .error e) :
+    ∃ e, decideWith exp o req g = .error e :=
+  e2es_decide_error_at hpre hb hu hlt hbad
+
+/-- **N2(c), criteria mixing**: a `mixingRatio` outside [0,1] of a mixing entry that fires on a state with at
+    least two criteria is rejected -/
+theorem firing_mixing_with_invalid_ratio_is_rejected {exp : Rat → Rat} {o : List (WCrit Rat) → List (WCrit Rat)}
+    {req : Request Rat} {g : Int → Draws Rat} {i : Nat} {b : BiasReq Rat (BProps Rat)} {u : Rat} {s : DMP Rat}
+    {outs : List (BiasOut Rat (Report Rat))} {p : Props Rat}
+    (hpre : pipeline exp { req with biases := (e2esEnabled req).take i } g = .ok (s, outs))
+    (hb : (e2esEnabled req)[i]? = some b) (hu : (g req.biasSeed)[i]? = some u) (hlt : u < e2esProb b)
+    (hname : b.name = Facts.biasMixing) (hprops : b.props = .flat p) (hn : 2 ≤ s.crit.length)
+    (hr : p.num "mixingRatio" (Num.ofConst Facts.defaultMixingRatio) < 0 ∨
+          1 < p.num "mixingRatio" (Num.ofConst Facts.defaultMixingRatio)) :
+    ∃ e, decideWith exp o req g = .error e := by
+  apply firing_bias_failing_on_its_state_rejects_request hpre hb hu hlt
+  intro orig
+  rw [hname, hprops]
+  unfold applyBias
+  rw [if_neg (by decide), if_neg (by decide), if_neg (by decide), if_neg (by decide), if_pos (by decide)]
+  exact valH_bind_error_of _ _ (mixing_ratio_out_of_range_rejected _ orig s p _ _ hn hr)
+
+/-- **negative result (registered finding `lazy-bias-props`)**: the props of an entry that does NOT fire are
+    never validated.  Replace the props of one enabled entry whose activation draw is not below its probability
+    by anything — invalid, undecodable — and the outcome of `decideWith` is the same as a whole: the same
+    response (a ranking!) or the same error.  So a request whose bias props violate the documented constraints
+    IS answered with a ranking whenever that bias happens not to fire (`applyProbability < 1`). -/
+theorem unfired_bias_props_are_never_validated (exp : α → α) (o : List (WCrit α) → List (WCrit α))
+    (req : Request α) (g : Int → Draws α) (pre post : List (BiasReq α (BProps α))) (b : BiasReq α (BProps α))
+    (props' : BProps α) (hreq : req.biases = pre ++ b :: post) (hen : b.disabled = false)
+    (hu : ∀ u, (g req.biasSeed)[(pre.filter (!·.disabled)).length]? = some u → ¬ u < e2esProb b) :
+    decideWith exp o { req with biases := pre ++ { b with props := props' } :: post } g
+      = decideWith exp o req g := by
+  rw [e2es_decide_props_irrelevant exp o req g pre post b props' hen hu, ← hreq]
+
+/-- … in particular a probability-0 entry (draws are never negative) may carry any props -/
+theorem probability_zero_bias_props_are_never_validated (exp : Rat → Rat)
+    (o : List (WCrit Rat) → List (WCrit Rat)) (req : Request Rat) (g : Int → Draws Rat)
+    (pre post : List (BiasReq Rat (BProps Rat))) (b : BiasReq Rat (BProps Rat)) (props' : BProps Rat)
+    (hreq : req.biases = pre ++ b :: post) (hen : b.disabled = false) (hp : b.prob = some 0)
+    (hd : ∀ u ∈ g req.biasSeed, 0 ≤ u) :
+    decideWith exp o { req with biases := pre ++ { b with props := props' } :: post } g
+      = decideWith exp o req g := by
+  apply unfired_bias_props_are_never_validated exp o req g pre post b props' hreq hen
+  intro u hu
+  have : e2esProb b = 0 := by unfold e2esProb; rw [hp]; rfl
+  rw [this]
+  exact Rat.not_lt.mpr (hd u (List.mem_of_getElem? hu))
+
+/-- **a second lazily validated constraint**: below two current criteria criteria mixing is a no-op that does
+    not look at its `mixingRatio` — an out-of-range ratio is accepted then, even when the bias fires -/
+theorem mixing_below_two_criteria_is_never_validated (exp : α → α) (g : Int → Draws α) (p : Props α)
+    (orig cur : DMP α) (h : cur.crit.length < 2) :
+    applyBias exp g Facts.biasMixing (.flat p) orig cur = .ok (cur, .mixing none) := by
+  unfold applyBias
+  rw [if_neg (by decide), if_neg (by decide), if_neg (by decide), if_neg (by decide), if_pos (by decide)]
+  simp only [mixing, h, if_true, pure, Except.pure, bind, Except.bind]
+
+end EndToEnd
+
+/-! ### the hypotheses are satisfiable: concrete requests (Lemmas/E2EExamples.lean, E2EServiceExamples.lean) -/
+
+section EndToEndExamples
+
+/-- the example request gets past `prepare` (all four conditions of `request_reaches_the_biases_iff` hold) … -/
+example : ∃ r, prepare e2eExWs = .ok r :=
+  (request_reaches_the_biases_iff e2eExWs).mpr ⟨by decide +kernel, by decide, ⟨_, rfl⟩, by decide⟩
+
+/-- … and each documented violation, one at a time on it, is never answered with a ranking: unknown method, -/
+example : ∃ e, ∀ (exp : Rat → Rat) o g, decideWith exp o { e2eExWs with method := "weightedSums" } g = .error e :=
+  unknown_method_never_ranked _ (by decide)
+/-- blank method, -/
+example : ∃ e, ∀ (exp : Rat → Rat) o g, decideWith exp o { e2eExWs with method := " " } g = .error e :=
+  blank_method_never_ranked _ rfl
+/-- unparsed parameters, -/
+example : ∃ e, ∀ (exp : Rat → Rat) o g, decideWith exp o { e2eExWs with mp := none } g = .error e :=
+  unparsed_parameters_never_ranked _ rfl
+/-- duplicate criterion id, -/
+example : ∃ e, ∀ (exp : Rat → Rat) o g,
+    decideWith exp o { e2eExWs with crit := [e2eExC0, e2eExC1, e2eExC0] } g = .error e :=
+  duplicate_criterion_never_ranked _ 0 2 e2eExC0 e2eExC0 (by decide) rfl rfl rfl
+/-- empty value range, -/
+example : ∃ e, ∀ (exp : Rat → Rat) o g,
+    decideWith exp o { e2eExWs with crit := [e2eExC0, ⟨"c1", "cost", some (1, 1)⟩] } g = .error e :=
+  bad_range_never_ranked _ ⟨"c1", "cost", some (1, 1)⟩ (by simp) 1 1 rfl (by decide +kernel)
+/-- missing criterion value, -/
+example : ∃ e, ∀ (exp : Rat → Rat) o g,
+    decideWith exp o { e2eExWs with known := ⟨"e", [("c0", 1)]⟩ :: e2eExKnown } g = .error e :=
+  missing_value_never_ranked _ ⟨"e", [("c0", 1)]⟩ (by simp) e2eExC1 (by simp [e2eExWs]) rfl
+/-- unknown alternative, -/
+example : ∃ e, ∀ (exp : Rat → Rat) o g,
+    decideWith exp o { e2eExWs with chosen := ["c", "a", "z"] } g = .error e :=
+  unknown_alternative_never_ranked _ "z" (by simp) (by decide)
+/-- unknown enabled bias -/
+example : ∃ e, ∀ (exp : Rat → Rat) o g,
+    decideWith exp o { e2eExWs with biases := [⟨"criteriaOmision", false, none, .bad⟩] } g = .error e :=
+  unknown_bias_never_ranked _ ⟨"criteriaOmision", false, none, .bad⟩ (by simp) rfl (by decide)
+
+/-- the handler's answer to the request with the unknown method: 400, no ranking -/
+example : handle true (Rdm.decide id { e2eExWs with method := "weightedSums" } e2eExSeeds) = (400, none) :=
+  rejected_request_is_answered_400 _ (Or.inr (Or.inl (by decide))) id e2eExSeeds true
+
+/-- N2(b) on the example request: it is answered, with a ranking of the three alternatives of `choseToMake` -/
+example : ∃ resp, Rdm.decide id e2eExWs e2eExSeeds = .ok resp ∧ resp.result.length = 3 := by
+  rcases decideWith_error_or_ranking (fun _ => Rat.lt_irrefl) id sortCriteriaDesc e2eExWs (genOf e2eExSeeds)
+    (by decide) with ⟨e, he⟩ | ⟨resp, mp, h, hmp, hlen, _⟩
+  · have : (Rdm.decide id e2eExWs e2eExSeeds).isOk = true := by decide +kernel
+    unfold Rdm.decide at this
+    rw [he] at this
+    cases this
+  · cases hmp
+    exact ⟨resp, h, hlen⟩
+
+/-- N2(c): the reversal of the example request with split ratio 3/2 and probability 1 — it fires on the draw
+    3/4 — is rejected, and answered 400 -/
+example : ∃ e, Rdm.decide id (e2esExWsBadReversal 1) e2eExSeeds = .error e :=
+  firing_bias_with_invalid_props_is_rejected (i := 1) (b := e2esExBadReversal 1) (u := 3 / 4) rfl
+    (by decide +kernel) (by decide +kernel) (.reversal_ratio _ _ _ (Or.inr (by decide +kernel)))
+
+example : handle true (Rdm.decide id (e2esExWsBadReversal 1) e2eExSeeds) = (400, none) :=
+  firing_bias_with_invalid_props_is_answered_400 (i := 1) (b := e2esExBadReversal 1) (u := 3 / 4) rfl
+    (by decide +kernel) (by decide +kernel) (.reversal_ratio _ _ _ (Or.inr (by decide +kernel))) true
+
+/-- **the finding `lazy-bias-props` on a concrete request**: the same invalid reversal (split ratio 3/2) with
+    probability 1/2 does not fire on the draw 3/4, and the request IS answered — with the very response of the
+    request whose reversal is valid -/
+example : ∃ resp, Rdm.decide id e2eExWs e2eExSeeds = .ok resp ∧
+    Rdm.decide id (e2esExWsBadReversal (1 / 2)) e2eExSeeds = .ok resp ∧ resp.result.length = 3 := by
+  obtain ⟨resp, h⟩ := e2e_ok_of_isOk (x := Rdm.decide id e2eExWs e2eExSeeds) (by decide +kernel)
+  have := unfired_bias_props_are_never_validated id sortCriteriaDesc e2eExWs (genOf e2eExSeeds)
+    [e2esExFatigue none] [e2esExDisabled] e2esExReversal (.split ⟨3 / 2, 0, maxInt64⟩ "" 7) rfl rfl
+    (by
+      intro u hu
+      have : (genOf e2eExSeeds e2eExWs.biasSeed)[([e2esExFatigue none].filter (!·.disabled)).length]?
+          = some (3 / 4 : Rat) := by decide +kernel
+      rw [this] at hu
+      cases hu
+      decide +kernel)
+  refine ⟨resp, h, ?_, ?_⟩
+  · unfold Rdm.decide at h ⊢
+    rw [← h, ← this]
+    rfl
+  · obtain ⟨mp, hmp, hperm, _, _⟩ := Rdm.Props.C01.decideWith_wellformed_spelled_out
+      (fun _ => Rat.lt_irrefl) id _ _ _ resp h (by decide)
+    cases hmp
+    have hl := hperm.length_eq
+    rw [List.length_map] at hl
+    rw [hl]
+    decide
+
+/-- N2(c), criteria mixing as first entry on a request with two criteria, `mixingRatio = 3/2`: rejected -/
+example : ∃ e, Rdm.decide id
+    { e2eExWs with biases := [⟨Facts.biasMixing, false, none, .flat { nums := [("mixingRatio", 3 / 2)] }⟩] }
+    e2eExSeeds = .error e := by
+  have hk : (match pipeline id { e2eExWs with biases := [] } (genOf e2eExSeeds) with
+      | .ok r => decide (2 ≤ r.1.crit.length)
+      | .error _ => false) = true := by decide +kernel
+  cases hp : pipeline id { e2eExWs with biases := [] } (genOf e2eExSeeds) with
+  | error e => rw [hp] at hk; cases hk
+  | ok r =>
+    rw [hp] at hk
+    obtain ⟨s, outs⟩ := r
+    exact firing_mixing_with_invalid_ratio_is_rejected (i := 0) (u := 1 / 4)
+      (b := ⟨Facts.biasMixing, false, none, .flat { nums := [("mixingRatio", 3 / 2)] }⟩) hp rfl
+      (by decide +kernel) (by decide +kernel) rfl rfl (of_decide_eq_true hk) (Or.inr (by decide +kernel))
+
+end EndToEndExamples
 
 end Rdm.Props.C20
